@@ -560,7 +560,83 @@ func GenCluster(rng *rand.Rand, cfg world.Config, level int) []client.Object {
 			}
 		}
 	}
+	// annotation names that collide with a known one under a normalisation the code does
+	// not apply (annotation names are case sensitive, "_" is not "-"): another value under
+	// such a name must be ignored, not picked by map iteration
+	for _, o := range objs {
+		switch o.(type) {
+		case *networking.Ingress, *api.Service:
+			AddNameVariants(rng, o, 3)
+		}
+	}
 	return objs
+}
+
+// NameVariants are the names that a normalising reader would identify with prefix+key.
+func NameVariants(prefix, key string) []string {
+	up := strings.ToUpper(key)
+	title := strings.ToUpper(key[:1]) + key[1:]
+	parts := strings.Split(key, "-")
+	for i := range parts {
+		if parts[i] != "" {
+			parts[i] = strings.ToUpper(parts[i][:1]) + parts[i][1:]
+		}
+	}
+	camel := strings.Join(parts, "-")
+	host := strings.TrimSuffix(prefix, "/")
+	return []string{prefix + up, prefix + title, prefix + camel, prefix + strings.ReplaceAll(key, "-", "_"),
+		strings.ToUpper(host[:1]) + host[1:] + "/" + key}
+}
+
+// AddNameVariants adds, for up to n of the haproxy-ingress annotations of the object (or of
+// the usual backend keys when it has none), variant names carrying ANOTHER value.
+func AddNameVariants(rng *rand.Rand, o client.Object, oneIn int) {
+	a := o.GetAnnotations()
+	if oneIn > 1 && rng.Intn(oneIn) != 0 {
+		return
+	}
+	if a == nil {
+		a = map[string]string{}
+	}
+	var names []string
+	for k := range a {
+		for _, p := range Prefixes {
+			if strings.HasPrefix(k, p) && len(k) > len(p) && strings.ToLower(k) == k {
+				names = append(names, k)
+			}
+		}
+	}
+	sort.Strings(names)
+	if len(names) == 0 {
+		kv := pick(rng, [][]string{{"balance-algorithm", "leastconn"}, {"maxconn-server", "50"}, {"timeout-server", "30s"}})
+		a[Prefixes[0]+kv[0]] = kv[1]
+		names = []string{Prefixes[0] + kv[0]}
+	}
+	for _, name := range names {
+		for _, p := range Prefixes {
+			if !strings.HasPrefix(name, p) {
+				continue
+			}
+			key := strings.TrimPrefix(name, p)
+			other := a[name] + "0"
+			for _, pool := range [][][]string{SpiceBack, SpiceHost, world.AnnWhitelist} {
+				for _, e := range pool {
+					if e[0] == key {
+						for _, v := range e[1:] {
+							if v != a[name] {
+								other = v
+							}
+						}
+					}
+				}
+			}
+			vs := NameVariants(p, key)
+			for i, n := 0, 1+rng.Intn(2); i < n; i++ {
+				a[vs[rng.Intn(len(vs))]] = other
+			}
+		}
+	}
+	o.SetAnnotations(a)
 }
 
 // Universe is the request universe of the C06 behaviours.
